@@ -406,6 +406,16 @@ func Parts(t *Term) []*Term {
 		return t.Args
 	case KNil:
 		return nil
+	case KMake:
+		if n, ok := IntConst(t.Args[0]); ok && n == 0 {
+			return nil // make([]T, 0, cap): no elements
+		}
+	case KCall:
+		if t.Name == "zeros" && len(t.Args) == 1 {
+			if n, ok := IntConst(t.Args[0]); ok && n == 0 {
+				return nil
+			}
+		}
 	}
 	return []*Term{{K: KSplice, Args: []*Term{t}}}
 }
